@@ -63,6 +63,42 @@ func genScript(t *rapid.T, m gen.Module, me int) string {
 	line("        for e in x:")
 	line("            n += walk(e, d - 1)")
 	line("    return n")
+	// poke descends into a shared value and attempts a mutation on everything it finds, including what is only reachable
+	// as a dict key, a set element or a bound method's receiver; callables found on the way are called
+	line("def callpoke(f, d):")
+	line("    return poke(f(), d)") // what a shared function returns (a default, a captured variable) is shared too
+	line("def poke(x, d):")
+	line("    acc = []")
+	line("    ty = type(x)")
+	line("    if ty == \"list\":")
+	line("        acc.append(attempt(x.append, \"poked\"))")
+	line("        if d > 0:")
+	line("            for e in x:")
+	line("                acc.extend(poke(e, d - 1))")
+	line("    elif ty == \"dict\":")
+	line("        acc.append(attempt(x.setdefault, \"poked\", 1))")
+	line("        if d > 0:")
+	line("            for k, v in x.items():")
+	line("                acc.extend(poke(k, d - 1))")
+	line("                acc.extend(poke(v, d - 1))")
+	line("    elif ty == \"set\":")
+	line("        acc.append(attempt(x.add, \"poked\"))")
+	line("        if d > 0:")
+	line("            for e in x:")
+	line("                acc.extend(poke(e, d - 1))")
+	line("    elif ty == \"tuple\":")
+	line("        if d > 0:")
+	line("            for e in x:")
+	line("                acc.extend(poke(e, d - 1))")
+	line("    elif ty == \"function\" or ty == \"builtin_function_or_method\":")
+	line("        acc.append(attempt(x, \"poked-arg\"))")
+	line("        if d > 0:")
+	line("            acc.append(attempt(callpoke, x, d - 1))")
+	line("    elif ty == \"struct\":")
+	line("        if d > 0:")
+	line("            for n in dir(x):")
+	line("                acc.extend(poke(getattr(x, n), d - 1))")
+	line("    return acc")
 	pick := func(kinds ...string) string {
 		var c []string
 		for _, v := range m.Vars {
@@ -87,7 +123,7 @@ func genScript(t *rapid.T, m gen.Module, me int) string {
 	stored := 0
 	for i := 0; i < n; i++ {
 		x := anyVar()
-		switch vk.Uniform(t, 27) {
+		switch vk.Uniform(t, 29) {
 		case 0:
 			line("r.append(attempt(lambda: str(%s)))", x)
 		case 1:
@@ -173,6 +209,8 @@ func genScript(t *rapid.T, m gen.Module, me int) string {
 				line("r.append(attempt(lambda: sorted(%s[:2] + [%d], key = lambda e: 0)))", lv, 6000+me)
 				line("r.append(attempt(lambda: len(%s)))", lv)
 			}
+		case 27, 28:
+			line("r.append(attempt(lambda: poke(%s, 3)))", x)
 		case 25, 26:
 			// closures made now by a shared factory capture variables of the shared (frozen) module; calling them
 			// reads those variables, storing them in this module's globals re-freezes them when the module ends
@@ -194,7 +232,7 @@ func genScript(t *rapid.T, m gen.Module, me int) string {
 	return sb.String()
 }
 
-var goOpKinds = []string{"elements", "hash", "freeze", "init-prog", "string", "equal"}
+var goOpKinds = []string{"elements", "hash", "freeze", "init-prog", "string", "equal", "saved-seq"}
 
 const progOK = "def pf(n):\n    return [i * n for i in range(5)]\nP = pf(3)\nQ = {str(i): SHARED for i in range(3)}\n"
 const progFail = "def deep(n):\n    if n == 0:\n        return [1][n + 3]\n    return deep2(n - 1)\ndef deep2(n):\n    return [deep(n) for _ in [0]][0]\n\n\n\nP = deep2(5)\n"
@@ -224,19 +262,67 @@ type shared struct {
 	globals starlark.StringDict
 	prog    *starlark.Program
 	names   []string
+	// seqs are Go push iterators (List.Elements, Dict.Entries, starlark.Elements ...) that a host built-in took from
+	// values of the module while it was still executing; the threads range over them after the module is frozen.
+	seqs []func() int
 }
 
 func buildShared(c Case) (*shared, error) {
 	tr := &host.Trace{}
 	pre, th := host.Env(tr, "shared")
 	pre["HOSTLIST"] = starlark.NewList([]starlark.Value{starlark.MakeInt(1)})
-	g, err := starlark.ExecFileOptions(&syntax.FileOptions{Set: c.Module.Set}, th, "shared.star", c.Module.Src, pre)
+	sh := &shared{}
+	count1 := func(seq func(func(starlark.Value) bool)) func() int {
+		return func() int {
+			n := 0
+			for range seq {
+				n++
+			}
+			for range seq {
+				break
+			}
+			return n
+		}
+	}
+	count2 := func(seq func(func(starlark.Value, starlark.Value) bool)) func() int {
+		return func() int {
+			n := 0
+			for range seq {
+				n++
+			}
+			return n
+		}
+	}
+	pre["keepseq"] = starlark.NewBuiltin("keepseq", func(_ *starlark.Thread, _ *starlark.Builtin, args starlark.Tuple, _ []starlark.Tuple) (starlark.Value, error) {
+		for _, a := range args {
+			switch x := a.(type) {
+			case *starlark.List:
+				sh.seqs = append(sh.seqs, count1(x.Elements()), count1(starlark.Elements(x)))
+			case *starlark.Dict:
+				// (starlark.Elements(dict) falls back to a one-shot iterator taken when it is called: not shareable, not saved)
+				sh.seqs = append(sh.seqs, count2(x.Entries()), count2(starlark.Entries(x)))
+			case *starlark.Set:
+				sh.seqs = append(sh.seqs, count1(x.Elements()), count1(starlark.Elements(x)))
+			case starlark.Tuple:
+				sh.seqs = append(sh.seqs, count1(x.Elements()))
+			}
+		}
+		return starlark.None, nil
+	})
+	src := c.Module.Src
+	for _, v := range c.Module.Vars {
+		switch v.Kind {
+		case "list", "dict", "set", "tuple":
+			src += "keepseq(" + v.Name + ")\n"
+		}
+	}
+	g, err := starlark.ExecFileOptions(&syntax.FileOptions{Set: c.Module.Set}, th, "shared.star", src, pre)
 	if err != nil {
 		if _, ok := err.(*starlark.EvalError); !ok {
 			return nil, fmt.Errorf("shared module invalid: %v", err)
 		}
 	}
-	sh := &shared{globals: g}
+	sh.globals = g
 	isPre := func(name string) bool { return name == "SHARED" }
 	_, prog, err := starlark.SourceProgramOptions(&syntax.FileOptions{}, "prog.star", c.Prog, isPre)
 	if err != nil {
@@ -274,7 +360,7 @@ func threadEnv(sh *shared) (starlark.StringDict, *starlark.Thread) {
 func runThread(sh *shared, script string, ops []string) string {
 	var sb strings.Builder
 	pre, th := threadEnv(sh)
-	g, err := starlark.ExecFileOptions(&syntax.FileOptions{Set: true}, th, "script.star", script, pre)
+	g, err := starlark.ExecFileOptions(&syntax.FileOptions{Set: true, Recursion: true}, th, "script.star", script, pre)
 	if err != nil {
 		sb.WriteString("script error: " + err.Error() + "\n")
 	}
@@ -313,6 +399,11 @@ func runThread(sh *shared, script string, ops []string) string {
 			case "equal":
 				eq, err := starlark.Equal(v, sh.globals[sh.names[0]])
 				fmt.Fprintf(&sb, "|eq:%v:%v", eq, err != nil)
+			}
+		}
+		if op == "saved-seq" {
+			for _, f := range sh.seqs {
+				fmt.Fprintf(&sb, "|sq:%d", f())
 			}
 		}
 		if op == "init-prog" {
